@@ -346,9 +346,19 @@ class FlowObserver:
         o_tp = conn._parse_transport_parameters
 
         def parse_transport_parameters(data, from_session_ticket=False):
-            o_tp(data, from_session_ticket=from_session_ticket)
+            # `checked`: handshake parameters of a server that accepted this client's early data
+            # (computed here, independently of the code under test)
+            checked = bool(conn._is_client and not from_session_ticket and conn.tls.early_data_accepted)
+            try:
+                o_tp(data, from_session_ticket=from_session_ticket)
+            except QuicConnectionError as e:
+                if int(e.error_code) == 0xA:      # the flow-control part refused the parameters
+                    vals = parse_tp(bytes(data))
+                    obs.errors.append(("flow.tp", 0xA))
+                    obs.emit("flow.tp " + " ".join(_opt(v) for v in vals) + f" {_b(checked)}", errname(e))
+                raise                             # other errors are raised before the flow-control part
             vals = parse_tp(bytes(data))
-            obs.emit("flow.tp " + " ".join(_opt(v) for v in vals), "ok")
+            obs.emit("flow.tp " + " ".join(_opt(v) for v in vals) + f" {_b(checked)}", "ok")
         conn._parse_transport_parameters = parse_transport_parameters
 
         # --- _unblock_streams (top level calls only: handshake completion)
